@@ -5,54 +5,16 @@
 (* attaches exactly what the cw20 deployment pulled from the caller.         *)
 (* Each recorded step carries both executions (cw, nat).                     *)
 (***************************************************************************)
-EXTENDS Findings, Json, IOUtils
+EXTENDS TwinProps, Json, IOUtils
 
 Rec == ndJsonDeserialize(IOEnv.TRACE)
 
-\* what must agree between the twins
-SameMarket(A, B) ==
-  /\ \A v \in DOMAIN A.vamm : A.vamm[v].st = B.vamm[v].st /\ A.vamm[v].snaps = B.vamm[v].snaps
-  /\ A.eng.pos = B.eng.pos
-  /\ A.eng.st = B.eng.st
-  /\ A.eng.vmap = B.eng.vmap
-Parties == {"tr1", "tr2", "tr3", "liq", "engine", "ifund", "fpool", "owner", "stranger"}
-Delta(S, T, a) == T.bal[a] - S.bal[a]
-
 V_C13(l) ==
   LET e == Rec[l + 1]
-      Sc == Rec[l].cw.post
-      Sn == Rec[l].nat.post
-      Tc == e.cw.post
-      Tn == e.nat.post
-  IN Tag(e.cw.res.ok = e.nat.res.ok, "C13.ok")
-     \cup Tag(SameMarket(Tc, Tn), "C13.state")
-     \cup Tag(\A a \in Parties : Delta(Sc, Tc, a) = Delta(Sn, Tn, a), "C13.balances")
-
-\* known findings (see known_findings.json): F3 native reversal-with-reopen funds accounting,
-\* F11 native close / partial close pays the trading fees out of the vault
+  IN TwinBad(Rec[l].cw.post, Rec[l].nat.post, e.cw, e.nat, e.cw.post, e.nat.post)
 TwinFinding(tag, l) ==
   LET e == Rec[l + 1]
-      Sc == Rec[l].cw.post
-      Sn == Rec[l].nat.post
-      Tc == e.cw.post
-      Tn == e.nat.post
-      t == e.tx.s
-  IN IF e.tx.c = "engine" /\ e.tx.m = "close_position" /\ tag = "C13.balances" /\ e.cw.res.ok /\ e.nat.res.ok
-        /\ SameMarket(Tc, Tn)
-        /\ LET fees == Sent(e.cw, t, "ifund") + Sent(e.cw, t, "fpool")
-           IN fees > 0 /\ Delta(Sn, Tn, t) = Delta(Sc, Tc, t) + fees
-              /\ Delta(Sn, Tn, "engine") = Delta(Sc, Tc, "engine") - fees
-              /\ \A a \in Parties \ {t, "engine"} : Delta(Sc, Tc, a) = Delta(Sn, Tn, a)
-     THEN "F11"
-     ELSE IF e.tx.c = "engine" /\ e.tx.m = "close_position" /\ e.cw.res.ok /\ ~e.nat.res.ok
-             /\ e.nat.res.err = "transfer_failure" /\ Sent(e.cw, t, "ifund") + Sent(e.cw, t, "fpool") > 0
-             /\ \E i \in 1..Len(e.nat.xfers) : e.nat.xfers[i].from = "engine" /\ ~e.nat.xfers[i].ok
-                                                  /\ e.nat.xfers[i].to \in {"ifund", "fpool"}
-     THEN "F11"
-     ELSE IF e.tx.c = "engine" /\ e.tx.m = "open_position" /\ e.cw.res.ok /\ Len(e.cw.swaps) = 2
-             /\ ~e.nat.res.ok /\ e.nat.res.err = "funds"
-     THEN "F3"
-     ELSE ""
+  IN TwinFindingOf(tag, e.tx, Rec[l].cw.post, Rec[l].nat.post, e.cw, e.nat, e.cw.post, e.nat.post)
 
 VARIABLES l, hits, synced
 TInit == l = 1 /\ Rec[1].kind = "reset" /\ hits = [t \in {"events"} |-> 1] /\ synced = TRUE
